@@ -10,7 +10,6 @@ import (
 	"errors"
 	"fmt"
 	"io"
-	"math/rand"
 	"os"
 	"path/filepath"
 	"sort"
@@ -141,13 +140,9 @@ func (e *histEnv) open() error {
 	var err error
 	ctx := context.Background()
 	if e.mode == "grpc" {
-		for try := 0; try < 20; try++ {
-			e.cfg.Port = 20000 + rand.Intn(40000)
-			e.h, err = verifapi.OpenServer(ctx, e.cfg)
-			if err == nil {
-				return nil
-			}
-		}
+		// a failed OpenServer leaves Badger locked, so pick a port that is known to be free first
+		e.cfg.Port = freePort()
+		e.h, err = verifapi.OpenServer(ctx, e.cfg)
 		return err
 	}
 	e.h, err = verifapi.OpenInline(ctx, e.cfg)
